@@ -94,7 +94,7 @@ func genOps(t *tape.Tape, n int) []WOp {
 }
 
 func GenWritePlan(t *tape.Tape, shapes []gen.Shape, maxRows int) WritePlan {
-	sh := shapes[t.Draw(len(shapes))]
+	sh := gen.Resolve(t, shapes[t.Draw(len(shapes))])
 	p := WritePlan{
 		Shape:      sh.Name(),
 		WriterKind: gen.WriterKinds[t.Weighted(4, 2, 2, 2, 1)],
